@@ -212,6 +212,9 @@ macro_rules! arr_dispatch {
             17 => $f::<17, $($g),*>($($args),*),
             32 => $f::<32, $($g),*>($($args),*),
             33 => $f::<33, $($g),*>($($args),*),
+            63 => $f::<63, $($g),*>($($args),*),
+            64 => $f::<64, $($g),*>($($args),*),
+            65 => $f::<65, $($g),*>($($args),*),
             127 => $f::<127, $($g),*>($($args),*),
             128 => $f::<128, $($g),*>($($args),*),
             255 => $f::<255, $($g),*>($($args),*),
